@@ -110,6 +110,8 @@ def run_batch(case, R):
                         explicit[c] = base - float(rng.uniform(0, 3))
                     else:
                         explicit[c] = base + float(rng.uniform(-3, 3))
+                    if rng.random() < 0.15:
+                        explicit[c] = base  # antagonistic programmes: the combination is exactly back at the baseline (zero delta)
             if explicit:
                 imp = ",".join("%s=%r" % ("+".join(sorted(c)), v) for c, v in explicit.items())
         co = at.programs.Covout(par="par", pop="pop", progs=progs, cov_interaction=inter, imp_interaction=imp, baseline=base)
